@@ -100,7 +100,7 @@ func vNextTapeByte() byte {
 func vValue(name string) uint64 {
 	v, ok := vRF.Values[name]
 	if !ok {
-		fmt.Printf("REPLAY-NOTE: no value for %q in the replay file, using 0\n", name)
+		vSayf("REPLAY-NOTE: no value for %q in the replay file, using 0\n", name)
 	}
 	return v
 }
@@ -124,7 +124,7 @@ func vStr(name string, n int) string { return string(vBytes(name, n)) }
 func vLen(name string, lo, hi int) int {
 	v, ok := vRF.Choices[name]
 	if !ok {
-		fmt.Printf("REPLAY-NOTE: no choice for %q, using %d\n", name, lo)
+		vSayf("REPLAY-NOTE: no choice for %q, using %d\n", name, lo)
 		return lo
 	}
 	return v
@@ -224,10 +224,47 @@ func vOutputs() int {
 }
 
 func vCaptured() string {
-	return vOutBuf.String() + vLogBuf.String()
+	out := vLogBuf.String()
+	for _, f := range []*os.File{vOutFile, vErrFile} {
+		if f != nil {
+			b, _ := os.ReadFile(f.Name())
+			out += string(b)
+		}
+	}
+	return out
 }
 
-func vTaintedOutputs() int { return 0 }
+var vOutFile, vErrFile *os.File
+
+// vSayf writes to the real standard output (the library's output is captured).
+var vRealOut = os.Stdout
+
+func vSayf(format string, a ...interface{}) { fmt.Fprintf(vRealOut, format, a...) }
+
+// vSecret registers a fragment that must never appear in captured output.
+var vSecrets []string
+
+func vSecret(s string) {
+	if len(s) > 0 {
+		vSecrets = append(vSecrets, s)
+	}
+}
+
+func vSharedWriteText(i int) string { return "" }
+
+// vTaintedOutputs natively: captured output lines that contain a registered secret.
+func vTaintedOutputs() int {
+	n := 0
+	for _, l := range strings.Split(vCaptured(), "\n") {
+		for _, s := range vSecrets {
+			if strings.Contains(l, s) {
+				n++
+				break
+			}
+		}
+	}
+	return n
+}
 func vOutputText(i int) string {
 	lines := strings.Split(strings.TrimRight(vCaptured(), "\n"), "\n")
 	if i < len(lines) {
@@ -266,12 +303,25 @@ func TestVerifReplay(t *testing.T) {
 	vTapeB, _ = hex.DecodeString(vRF.Tape)
 	h, ok := verifHarnesses[vRF.Harness]
 	if !ok {
-		fmt.Printf("REPLAY-RESULT: error: unknown harness %s\n", vRF.Harness)
+		vSayf("REPLAY-RESULT: error: unknown harness %s\n", vRF.Harness)
 		return
 	}
 	saved := crand.Reader
 	crand.Reader = io.Reader(vScriptedReader{})
 	defer func() { crand.Reader = saved }()
+	// capture everything the library writes to stdout, stderr and the process log
+	origOut, origErr := os.Stdout, os.Stderr
+	vOutFile, _ = os.CreateTemp("", "gosym-out-")
+	vErrFile, _ = os.CreateTemp("", "gosym-err-")
+	os.Stdout, os.Stderr = vOutFile, vErrFile
+	defer func() {
+		os.Stdout, os.Stderr = origOut, origErr
+		for _, f := range []*os.File{vOutFile, vErrFile} {
+			f.Close()
+			os.Remove(f.Name())
+		}
+	}()
+	say := vSayf
 	log.SetOutput(&vLogBuf)
 	verifDrawLog = nil
 	verifDrawHook = func(n uint32) { verifDrawLog = append(verifDrawLog, vDrawRec{n, vTapePos}) }
@@ -302,11 +352,11 @@ func TestVerifReplay(t *testing.T) {
 		}()
 	}
 	if runs > 1 {
-		fmt.Printf("REPLAY-NOTE: order-dependent counterexample, %d of up to %d runs made\n", done, runs)
+		say("REPLAY-NOTE: order-dependent counterexample, %d of up to %d runs made\n", done, runs)
 	}
 	if vPadded > 0 {
-		fmt.Printf("REPLAY-NOTE: the real code read %d bytes beyond the scripted tape (served as zeros)\n", vPadded)
+		say("REPLAY-NOTE: the real code read %d bytes beyond the scripted tape (served as zeros)\n", vPadded)
 	}
-	fmt.Printf("REPLAY-NOTE: reads=%d draws=%d tape_consumed=%d\n", vReadCnt, len(verifDrawLog), vTapePos)
-	fmt.Printf("REPLAY-RESULT: %s\n", result)
+	say("REPLAY-NOTE: reads=%d draws=%d tape_consumed=%d\n", vReadCnt, len(verifDrawLog), vTapePos)
+	say("REPLAY-RESULT: %s\n", result)
 }
